@@ -1,7 +1,7 @@
 (* C19 - the command line reports success and failure through its exit status.
    Theorems about the decision table Cli.main_model. *)
 From HclV Require Import Base Cli Generated.
-From HclV Require CliArgs CliArgsSpec CliArgsProofs Tool ToolSpec ToolProofs.
+From HclV Require CliArgs CliArgsSpec CliArgsProofs Tool ToolSpec ToolProofs FrontWfSpec FrontWfProofs.
 Open Scope string_scope.
 Open Scope N_scope.
 
@@ -186,3 +186,12 @@ Print Assumptions C19_composed_tool_check_and_files.
 Theorem C19_version_is_cargo_toml : gen_package_version = Some Tool.package_version.
 Proof. vm_compute. reflexivity. Qed.
 Print Assumptions C19_version_is_cargo_toml.
+
+(* "or the simulation aborts": for a file that is valid UTF-8 the only abort of the composed tool's
+   simulation is a division by zero (FrontWfProofs: no well-formedness hypothesis left) *)
+Theorem C19_composed_tool_abort_is_division_by_zero :
+  FrontWfSpec.stmt_tool_abort_is_division_by_zero_unconditional /\ FrontWfSpec.stmt_tool_statements_wf.
+Proof.
+  split; [exact FrontWfProofs.tool_abort_is_division_by_zero_unconditional_holds | exact FrontWfProofs.tool_statements_wf_holds].
+Qed.
+Print Assumptions C19_composed_tool_abort_is_division_by_zero.
